@@ -1,2 +1,114 @@
-pub fn range_main(_args: &[String]) { eprintln!("range: not built yet"); }
-pub fn locks_main(_args: &[String]) { eprintln!("locks: not built yet"); }
+// misc.rs -- K9: racing opens and handle life cycle against the OpenLock model.
+//   hx race <file>      events: open <slot> | openstats <slot> | clone <slot> <new> | drop <slot> |
+//                       dropcas <slot> | dropstats <slot> | spawn <proc> | kill <proc> |
+//                       racethreads <n> | raceprocs <n>
+use std::collections::HashMap;
+use std::io::{BufRead, BufReader, Write};
+use std::path::{Path, PathBuf};
+use std::process::{Child, Command, Stdio};
+use std::sync::{Arc, Barrier};
+
+use cassadilia::{Cas, Config, LibError, OrphanStats};
+
+use crate::canon::*;
+
+type K = Vec<u8>;
+fn cfg() -> Config { Config { num_ops_per_wal: std::num::NonZeroU64::new(3).unwrap(), ..Default::default() } }
+fn dir_digest(root: &Path) -> String { dump_dir(root, "", None).join("|") }
+fn outcome(r: &Result<(), LibError>) -> String {
+    match r { Ok(()) => "opened".into(), Err(LibError::AlreadyOpened) => "already".into(), Err(e) => format!("err:{}", classify(&format!("{e:?}"))) }
+}
+
+pub fn locks_main(_args: &[String]) { eprintln!("lock sequences are checked inside `hx conc` (K7)"); }
+pub fn range_main(_args: &[String]) { eprintln!("range cubes run as ordinary case files (K8)"); }
+
+/// child mode: open, print the outcome, then hold the handle until stdin closes
+pub fn hold_main(args: &[String]) {
+    let root = PathBuf::from(&args[0]);
+    let r = Cas::<K>::open(&root, cfg());
+    println!("{}", match &r { Ok(_) => "opened".to_string(), Err(LibError::AlreadyOpened) => "already".to_string(), Err(e) => format!("err:{}", classify(&format!("{e:?}"))) });
+    std::io::stdout().flush().unwrap();
+    if let Err(e) = &r { if !matches!(e, LibError::AlreadyOpened) { eprintln!("{e:?}"); } }
+    let mut s = String::new();
+    let _ = std::io::stdin().read_line(&mut s);
+    drop(r);
+}
+
+pub fn race_main(args: &[String]) {
+    let text = std::fs::read_to_string(&args[0]).unwrap();
+    let mut name = String::new();
+    let mut evs: Vec<Vec<String>> = vec![];
+    let mut cases: Vec<(String, Vec<Vec<String>>)> = vec![];
+    for l in text.lines() {
+        let t: Vec<String> = l.split_whitespace().map(String::from).collect();
+        if t.is_empty() { continue; }
+        match t[0].as_str() {
+            "race" => { name = t[1].clone(); evs = vec![]; }
+            "ev" => evs.push(t[1..].to_vec()),
+            "end" => cases.push((name.clone(), std::mem::take(&mut evs))),
+            _ => {}
+        }
+    }
+    for (name, evs) in cases {
+        println!("CASE {name}");
+        let base = if Path::new("/dev/shm").is_dir() { PathBuf::from("/dev/shm") } else { std::env::temp_dir() };
+        let td = tempfile::Builder::new().prefix("hxr").tempdir_in(std::env::var("HX_TMP").map(PathBuf::from).unwrap_or(base)).unwrap();
+        let root = td.path().join("db");
+        std::fs::create_dir_all(&root).unwrap();
+        let log = td.path().join("shim.log");
+        shim_set_root(&root); shim_set_log(&log, false);
+        let mut tr = TraceReader::new(log.clone());
+        let mut cas: HashMap<String, Cas<K>> = HashMap::new();
+        let mut stats: HashMap<String, OrphanStats<K>> = HashMap::new();
+        let mut procs: HashMap<String, Child> = HashMap::new();
+        for (i, e) in evs.iter().enumerate() {
+            let res: String = match e[0].as_str() {
+                "open" | "openstats" | "openn" => {
+                    let before = dir_digest(&root);
+                    shim_arm(1, -1); let _ = tr.read_new();
+                    let r = if e[0] == "openn" { let mut c2 = cfg(); c2.num_ops_per_wal = std::num::NonZeroU64::new(e[2].parse().unwrap()).unwrap(); Cas::<K>::open(&root, c2).map(|c| { cas.insert(e[1].clone(), c); }) }
+                            else if e[0] == "open" { Cas::<K>::open(&root, cfg()).map(|c| { cas.insert(e[1].clone(), c); }) }
+                            else { Cas::<K>::open_with_recover(&root, cfg()).map(|(c, s)| { cas.insert(e[1].clone(), c); if let Some(s) = s { stats.insert(e[1].clone(), s); } }) };
+                    shim_arm(0, -1);
+                    let (calls, _) = tr.read_new();
+                    let o = outcome(&r);
+                    if o == "already" { format!("already same={} calls=[{}]", before == dir_digest(&root), calls.join(";")) } else { o }
+                }
+                "clone" => { let c = cas.get(&e[1]).cloned(); match c { Some(c) => { cas.insert(e[2].clone(), c); "none".into() } None => "none".into() } }
+                "drop" | "dropcas" => { cas.remove(&e[1]); "none".into() }
+                "dropstats" => { stats.remove(&e[1]); "none".into() }
+                "spawn" => {
+                    let mut ch = Command::new(std::env::current_exe().unwrap()).arg("hold").arg(&root).stdin(Stdio::piped()).stdout(Stdio::piped()).spawn().unwrap();
+                    let mut line = String::new();
+                    BufReader::new(ch.stdout.as_mut().unwrap()).read_line(&mut line).unwrap();
+                    procs.insert(e[1].clone(), ch);
+                    line.trim().to_string()
+                }
+                "kill" => { if let Some(mut ch) = procs.remove(&e[1]) { let _ = ch.kill(); let _ = ch.wait(); } "none".into() }
+                "racethreads" => {
+                    let n: usize = e[1].parse().unwrap();
+                    let bar = Arc::new(Barrier::new(n));
+                    let hs: Vec<_> = (0..n).map(|_| { let (b, r) = (bar.clone(), root.clone()); std::thread::spawn(move || { b.wait(); Cas::<K>::open(&r, cfg()) }) }).collect();
+                    let rs: Vec<_> = hs.into_iter().map(|h| h.join().unwrap()).collect();
+                    let w = rs.iter().filter(|r| r.is_ok()).count();
+                    let l = rs.iter().filter(|r| matches!(r, Err(LibError::AlreadyOpened))).count();
+                    let s = format!("winners={w} already={l} other={}", n - w - l);
+                    drop(rs);
+                    s
+                }
+                "raceprocs" => {
+                    let n: usize = e[1].parse().unwrap();
+                    let mut chs: Vec<Child> = (0..n).map(|_| Command::new(std::env::current_exe().unwrap()).arg("hold").arg(&root).stdin(Stdio::piped()).stdout(Stdio::piped()).spawn().unwrap()).collect();
+                    let outs: Vec<String> = chs.iter_mut().map(|c| { let mut l = String::new(); BufReader::new(c.stdout.as_mut().unwrap()).read_line(&mut l).unwrap(); l.trim().to_string() }).collect();
+                    let w = outs.iter().filter(|o| *o == "opened").count();
+                    let l = outs.iter().filter(|o| *o == "already").count();
+                    for mut c in chs { let _ = c.kill(); let _ = c.wait(); }
+                    format!("winners={w} already={l} other={}", n - w - l)
+                }
+                o => panic!("bad race event {o}"),
+            };
+            println!("E {i} {} -> {res}", e.join(" "));
+        }
+        for (_, mut ch) in procs { let _ = ch.kill(); let _ = ch.wait(); }
+    }
+}
